@@ -109,6 +109,18 @@ def new_rng(x):
     return random.Random().random()
 
 
+RNG_FIXED = random.Random(2024)      # module-level instance that is only ever seeded explicitly
+RNG_DEFAULT = random.Random()        # module-level instance seeded by default
+
+
+def draws_fixed(x):
+    return RNG_FIXED.random()
+
+
+def draws_default(x):
+    return RNG_DEFAULT.random()
+
+
 def mutates_global(x):
     global G
     G += 1
@@ -128,7 +140,7 @@ def pure(x):
 
 CALLS = ["prints(1)", "raises(1)", "exits(1)", "closes_stdout(1)", "closes_fd1(1)",
          "replaces_stdout(1)", "disables_logging(1)", "disables_and_logs(1)", "logs(1)", "removes_handlers(1)", "reseeds(1)",
-         "draws(1)", "new_rng(1)", "mutates_global(1)", "mutates_class(1)", "pure(2)", "pure(0)"]
+         "draws(1)", "new_rng(1)", "draws_fixed(1)", "draws_default(1)", "mutates_global(1)", "mutates_class(1)", "pure(2)", "pure(0)"]
 # calls whose own result depends on state they (or process globals) carry across tests
 HIDDEN_STATE = ("mutates_global", "mutates_class", "removes_handlers")
 
@@ -370,7 +382,7 @@ def run(ctx):
     ctx.exhaustive = ctx.col.counters.get("capped_sequences", 0) == 0
     ctx.note("leg1_depth", depth)
     ctx.note("leg1_alphabet", CALLS)
-    ctx.rule = (f"leg 1: all sequences of <= {depth} calls from the 17-call alphabet through one executor, "
+    ctx.rule = (f"leg 1: all sequences of <= {depth} calls from the 19-call alphabet through one executor, "
                 "process snapshot compared after every execution, result projection compared with the "
                 f"call's first-position result; leg 2: all schedules with <= {bound} deviations of the "
                 "timeout/abandon protocol (see C32) judged for lost later results and leaked redirection")
